@@ -64,7 +64,7 @@ def case_term(res):
 
 
 HEAD = """From Coq Require Import ZArith List String Bool PrimFloat.
-From OV Require Import Model.Num Model.Fmt Model.Report.
+From OV Require Import Model.Num Model.Fmt Model.Report Model.ReportCP.
 Import ListNotations.
 Open Scope string_scope.
 Set Printing Width 100000. Set Printing Depth 100000.
@@ -72,7 +72,7 @@ Set Printing Width 100000. Set Printing Depth 100000.
 
 TAIL = """
 Definition run (c : request * analysis * otext * oyaml) : list string :=
-  let '(q, a, t, y) := c in (if wf_analysis a then [] else ["wf"]) ++ report_agrees q a t y.
+  let '(q, a, t, y) := c in (if wf_analysis a then [] else ["wf"]) ++ (if cp_covers a then [] else ["cp-covers"]) ++ report_agrees q a t y.
 Definition out : list string :=
   List.concat (map (fun p => match run (snd p) with [] => [] | l => [nat_string (fst p) ++ ":" ++ String.concat "," l] end)
               (combine (seq 0 (List.length cases)) cases)).
